@@ -326,3 +326,20 @@ P("C05",
    U("c05.crash", "c05", "TestCrash", "sampled crash points: resume state never ahead of disk, missing files re-checked, DB reopens", Q(96, 16, 900), T(3000, 16), min_nontrivial_frac=0.15, shrinktime="40s"),
    U("c05.enum", "c05", "TestCrashEnum", "all write entry/exit crash points of small layouts (Counts: crash-points-enumerated)", Q(8, 8, 900), T(160, 16), shrinktime="10s"),
   ])
+
+P("C19",
+  level_text="Bounded random exploration at session level with a metamorphic control: each case builds one torrent twice from the same draw - once with the generated encoding of the private "
+             "flag (integers incl. 0, 2, -1 and > 64 bit, strings, empty string, list, dict) and once with the flag removed - and observes both sessions through the same channels: a listener whose "
+             "address is only ever mentioned in a ut_pex message sent by a scripted peer (also before the metadata is known, for magnet adds), ut_pex messages received by a scripted peer that "
+             "advertises the extension, a recording UDP socket configured as the only DHT bootstrap router, a scripted HTTP tracker, Magnet(), and the handshake / extension-handshake / tracker identity "
+             "strings. For the torrent the client itself classifies as private: the PEX-only address is never dialed, no ut_pex is sent, no DHT query carries its info-hash, no magnet link, and the configured "
+             "private peer-id prefix, client version and user agent are used; a magnet whose metadata has private=1 is refused with an error and writes nothing. The control must show the same channels firing, "
+             "otherwise the case is inconclusive.",
+  level_note="Trusted: " + SESSION_TRUST + "; nictuku/dht querying its configured routers while its routing table is empty (read, and confirmed by the control run of every case). "
+             "Which odd encodings count as private is taken from the client's own Stats().Private (asserted only for the unambiguous BEP 27 cases: 1 is private, absent is public). Observation window 2.5 s per run.",
+  technique="property-based testing (rapid) at system level: metamorphic pair (flip only the private flag) with scripted peers, tracker and DHT stub",
+  rule="encoding x DHT/PEX settings x torrent-file or magnet x PEX before/after metadata x port message; non-trivial = the torrent is classified private (or a private magnet is refused); distinct = distinct case",
+  assumptions=["both runs of a case execute in one child process, one after the other"],
+  units=[
+   U("c19.private", "c19", "TestPrivate", "private torrents: no DHT, no PEX in either direction, no magnet export, private identity strings; control shows the channels are live", Q(32, 16, 900), T(1200, 16), min_nontrivial_frac=0.2, shrinktime="60s"),
+  ])
